@@ -64,6 +64,10 @@ P("C03",
    U("c03.cachedpiece", "c03", "TestCachedPiece",
      "cachedpiece.ReadAt == F for generated offsets/lengths/cache geometries; cold, warm, evicted and expired cache entries",
      Q(4000, 8), T(400000), min_nontrivial_frac=0.3),
+   U("c03.concurrent", "c03", "TestConcurrent",
+     "2-6 concurrent readers, each repeating its own generated list of block reads 5-40 times, through one read cache with room for 1-4 cache blocks (every load evicts) or a 1 ms "
+     "TTL: every returned buffer == F, no error, no short success, no crash",
+     Q(800, 8, 600), T(60000, 16), env={"VERIF_JOURNAL": "1"}),
    U("c03.serve", "c03", "TestServe",
      "a real session seeding a generated layout (optionally with damaged pieces it therefore does not have) under generated read-cache block size / capacity / TTL and MaxRequestsIn, "
      "1..3 scripted leechers sending generated requests (aligned, unaligned, duplicates, zero-length, > 16 KiB, out-of-bounds begin/length incl. 32-bit wrap, bad index, pieces not held), "
